@@ -427,3 +427,47 @@ func (e *enumerator) stmt(s ast.Stmt, p Path, depth int, k kont) {
 		e.events(s, p, depth, func(p2 Path) { k(p2, "") })
 	}
 }
+
+// Consistent reports whether the path's recorded condition outcomes do not contradict each other
+// (same atom with both outcomes, or X==Y / X!=Y with the same outcome). Infeasible paths produced by
+// the path-insensitive enumeration are pruned by rules that call this.
+func (p Path) Consistent() bool {
+	seen := map[string]bool{}
+	for _, e := range p {
+		if e.Kind != "COND" {
+			continue
+		}
+		i := lastIndexByte(e.Arg, '=')
+		if i < 0 {
+			continue
+		}
+		atom, val := e.Arg[:i], e.Arg[i+1:] == "true"
+		if j := indexOf(atom, "!="); j >= 0 {
+			atom = atom[:j] + "==" + atom[j+2:]
+			val = !val
+		}
+		if prev, ok := seen[atom]; ok && prev != val {
+			return false
+		}
+		seen[atom] = val
+	}
+	return true
+}
+
+func lastIndexByte(s string, c byte) int {
+	for i := len(s) - 1; i >= 0; i-- {
+		if s[i] == c {
+			return i
+		}
+	}
+	return -1
+}
+
+func indexOf(s, sub string) int {
+	for i := 0; i+len(sub) <= len(s); i++ {
+		if s[i:i+len(sub)] == sub {
+			return i
+		}
+	}
+	return -1
+}
